@@ -63,6 +63,7 @@ type vfCfg struct {
 	fw         bool
 	cmd        int  // 0: CmdGet (read) / CmdPrewrite (write); else the tikvrpc.CmdType to send (read := isReadReq(cmd))
 	inv        bool // the cached region is invalidated between locate and send (oracles only)
+	tp         byte // req.StoreTp and endpoint type: K TiKV (default), F TiFlash (region with one TiFlash peer), D TiDB
 }
 
 func b01(b bool) string {
@@ -77,9 +78,9 @@ func (c vfCfg) String() string {
 	if c.label >= 0 {
 		lb = strconv.Itoa(c.label)
 	}
-	return fmt.Sprintf("rt=%c,st=%s,rd=%s,lb=%s,lo=%s,lv=%s,sl=%s%s%s,thr=%s,to=%s,ms=%d,val=%s,lr=%s,fw=%s,cmd=%d,inv=%s",
+	return fmt.Sprintf("rt=%c,st=%s,rd=%s,lb=%s,lo=%s,lv=%s,sl=%s%s%s,thr=%s,to=%s,ms=%d,val=%s,lr=%s,fw=%s,cmd=%d,inv=%s,tp=%c",
 		c.rt, b01(c.stale), b01(c.read), lb, b01(c.leaderOnly), string(c.live[:]), b01(c.slow[0]), b01(c.slow[1]), b01(c.slow[2]),
-		b01(c.thr), b01(c.shortTO), c.ms, b01(c.val), b01(c.learner), b01(c.fw), c.cmd, b01(c.inv))
+		b01(c.thr), b01(c.shortTO), c.ms, b01(c.val), b01(c.learner), b01(c.fw), c.cmd, b01(c.inv), c.tp)
 }
 
 func vfParseCfg(s string) vfCfg {
@@ -127,6 +128,8 @@ func vfParseCfg(s string) vfCfg {
 			c.cmd, _ = strconv.Atoi(v)
 		case "inv":
 			c.inv = v == "1"
+		case "tp":
+			c.tp = v[0]
 		}
 	}
 	if c.cmd != 0 {
@@ -219,7 +222,7 @@ func vfMkResp(req *tikvrpc.Request, re *errorpb.Error) *tikvrpc.Response {
 }
 
 func vfDefaultCfg() vfCfg {
-	return vfCfg{rt: 'L', read: true, label: -1, live: [3]byte{'R', 'R', 'R'}, ms: 100000, val: true}
+	return vfCfg{rt: 'L', read: true, label: -1, live: [3]byte{'R', 'R', 'R'}, ms: 100000, val: true, tp: 'K'}
 }
 
 type vfRecorder struct{ run **vfRun }
@@ -261,10 +264,98 @@ type vfFix struct {
 	dirty    bool // the cache holds a newer region version than PD (after an EpochNotMatch with newer regions): rebuild
 }
 
-type vfFailValidator struct{}
+type vfFailValidator struct{ calls *int }
 
-func (vfFailValidator) ValidateReadTS(ctx context.Context, readTS uint64, isStaleRead bool, opt *oracle.Option) error {
+func (v vfFailValidator) ValidateReadTS(ctx context.Context, readTS uint64, isStaleRead bool, opt *oracle.Option) error {
+	if v.calls != nil {
+		*v.calls++
+	}
 	return errors.New("verif: read ts validation failed")
+}
+
+// vfRunTp: the request dimension StoreTp x endpoint type for a coprocessor read.  F: a region with one TiKV and one TiFlash
+// peer, StoreTp = TiFlash, et = TiFlash; D: StoreTp = TiDB, et = TiDB (sent to the sender's store address).  Only the
+// validation gate is modelled for these; oracle: a read whose timestamp failed validation is never sent unless StoreTp == TiDB.
+func vfRunTp(c vfCfg, script []string) vfRes {
+	mvcc := mocktikv.MustNewMVCCStore()
+	defer mvcc.Close()
+	cluster := mocktikv.NewCluster(mvcc)
+	_, _, regionID := mocktikv.BootstrapWithSingleStore(cluster)
+	fs, fp := cluster.AllocID(), cluster.AllocID()
+	cluster.AddStore(fs, "tiflash0", &metapb.StoreLabel{Key: "engine", Value: "tiflash"})
+	cluster.AddPeer(regionID, fs, fp)
+	pdCli := &CodecPDClient{mocktikv.NewPDClient(cluster), apicodec.NewCodecV1(apicodec.ModeTxn)}
+	cache := NewRegionCache(pdCli, RegionCacheNoHealthTick)
+	defer cache.Close()
+	bo := retry.NewBackoffer(context.Background(), c.ms)
+	loc, err := cache.LocateRegionByID(retry.NewNoopBackoff(context.Background()), regionID)
+	if err != nil {
+		panic(err)
+	}
+	et, stp := tikvrpc.TiFlash, tikvrpc.TiFlash
+	if c.tp == 'D' {
+		et, stp = tikvrpc.TiDB, tikvrpc.TiDB
+	}
+	req := tikvrpc.NewRequest(tikvrpc.CmdCop, &coprocessor.Request{Tp: 103, StartTs: 10})
+	req.StoreTp = stp
+	if c.stale {
+		req.StaleRead = true
+	}
+	calls := 0
+	var validator oracle.ReadTSValidator = oracle.NoopReadTSValidator{}
+	if !c.val {
+		validator = vfFailValidator{calls: &calls}
+	}
+	var sent []string
+	cli := &vfFnClient{fn: func(addr string, rq *tikvrpc.Request) (*tikvrpc.Response, error) {
+		sent = append(sent, fmt.Sprintf("A0:%s%s%s", b01(rq.ReplicaRead), b01(rq.StaleRead), b01(rq.IsRetryRequest)))
+		return &tikvrpc.Response{Resp: &coprocessor.Response{}}, nil
+	}}
+	sender := NewRegionRequestSender(cache, cli, validator)
+	sender.SetStoreAddr("tidb0")
+	resp, _, _, err := sender.SendReqCtx(bo, req, loc.Region, time.Second, et)
+	result := "X"
+	switch {
+	case err != nil && resp == nil:
+		result = "E"
+	case err == nil && resp != nil:
+		if re, _ := resp.GetRegionError(); re != nil {
+			result = "P"
+		} else {
+			result = "S" + strconv.Itoa(len(sent)-1)
+		}
+	}
+	var fails []string
+	if !c.val && c.tp != 'D' && (len(sent) != 0 || result != "E") {
+		fails = append(fails, fmt.Sprintf("sent-after-failed-validation:StoreTp=%c,validator-calls=%d", c.tp, calls))
+	}
+	if result == "X" {
+		fails = append(fails, "result-shape")
+	}
+	orc := "pass"
+	if len(fails) > 0 {
+		orc = "fail:" + strings.Join(fails, ";")
+	}
+	ev := strings.Join(sent, ";")
+	if ev == "" {
+		ev = "-"
+	}
+	line := fmt.Sprintf("C\t%s\t-\t-\t%s\t%s\t%d\t0\t%d\t%s", c.String(), ev, result, bo.GetTotalSleep(), bo.ErrorsNum(), orc)
+	return vfRes{line: line, oracle: orc, nAtt: len(sent), result: result}
+}
+
+type vfFnClient struct {
+	fn func(addr string, req *tikvrpc.Request) (*tikvrpc.Response, error)
+}
+
+func (c *vfFnClient) Close() error                                  { return nil }
+func (c *vfFnClient) CloseAddr(addr string) error                   { return nil }
+func (c *vfFnClient) SetEventListener(l client.ClientEventListener) {}
+func (c *vfFnClient) SendRequestAsync(ctx context.Context, addr string, req *tikvrpc.Request, cb async.Callback[*tikvrpc.Response]) {
+	panic("verif: async path not used")
+}
+func (c *vfFnClient) SendRequest(ctx context.Context, addr string, req *tikvrpc.Request, timeout time.Duration) (*tikvrpc.Response, error) {
+	return c.fn(addr, req)
 }
 
 type vfClient struct{ r *vfRun }
@@ -443,6 +534,9 @@ type vfRes struct {
 }
 
 func (f *vfFix) run(c vfCfg, script []string) vfRes {
+	if c.tp == 'F' || c.tp == 'D' {
+		return vfRunTp(c, script)
+	}
 	r := &vfRun{f: f, cfg: c, script: script, storeIdx: map[string]int{}, peerIDs: f.peerIDs}
 	// ---- reset the shared fixture
 	for k := range f.liveAns {
@@ -990,6 +1084,23 @@ func VerifSendReqMain(args []string) int {
 				L = LF - 1
 			}
 			g.enum(c, alphaA, nil, L)
+		}
+	}
+	// class G: request dimension StoreTp x endpoint type (validation gate): TiFlash- and TiDB-served coprocessor reads,
+	// validation passing / failing, plain and stale
+	for _, tp := range []byte("FD") {
+		for _, val := range []bool{true, false} {
+			for _, st := range []bool{false, true} {
+				c := vfDefaultCfg()
+				c.tp = tp
+				c.val = val
+				c.stale = st
+				c.cmd = int(tikvrpc.CmdCop)
+				if st {
+					c.rt = 'M'
+				}
+				g.emit(c, nil)
+			}
 		}
 	}
 	// class E: every command type x short scripts: each single outcome, replica exhaustion (pseudo region error made by
